@@ -117,7 +117,8 @@ pub fn qdev(cap: usize) -> IfaceSpec {
     }
 }
 
-const POOL: [&str; 40] = [
+const POOL: [&str; 44] = [
+    "CONFiguration", "MULTiplyFloat", "CALibrationData1", "ABCDEFGHIJKLMNo",
     "A", "B", "C", "D", "AB", "BA", "VOLTage", "CURRent", "TeST", "MEAS1", "X_Y", "RANGe", "DC", "AC", "FREQuency",
     "SYSTem", "ERRor", "NEXT", "COUNt", "VERSion", "OUTPut", "STATe", "LEVel", "TRIGger", "SOURce", "CH1", "CH2", "aBc",
     "MoDe", "IMMediate", "Q9", "N_1x", "LIMit", "UPPer", "LOWer", "DATA", "VOLT", "CURR", "Te", "R2d2",
